@@ -186,36 +186,18 @@ func (e *evWorld) expectBatch(b []evEvent, sn gocql.VerifEvSnap) (refresh bool) 
 	return
 }
 
-// pushBatch sends the burst on the control connection. Frames go out back to back, except that a status event for
-// an address that already has a DIFFERENT status earlier in the burst is preceded by a 25 ms pause: gocql hands
-// every EVENT frame to the debouncer on its own goroutine (`go c.session.handleEvent(framer)` in Conn.recv), so
-// two frames sent back to back may reach the debouncer's buffer in either order (recorded as a finding); with the
-// pause the buffer order is the wire order and "the last status of an address" is well defined.
+// pushBatch sends the burst on the control connection, all frames back to back in ONE write: gocql reads them one after
+// the other and hands each to the event debouncer before it reads the next (Conn.recv calls handleEvent itself since
+// the repair of KF-C16-2), so the debouncer's buffer is the wire order and "the last status of an address" is the
+// last one written.
 func (e *evWorld) pushBatch(b []evEvent) bool {
 	var bodies [][]byte
-	seen := map[int]byte{}
-	flush := func() bool {
-		if len(bodies) == 0 {
-			return true
-		}
-		ok := e.cp.PushEvents(bodies...)
-		bodies = nil
-		return ok
-	}
 	nt := 0
 	for _, ev := range b {
-		if k, ok := seen[ev.addr]; ev.kind != 't' && ok && k != ev.kind {
-			if !flush() {
-				return false
-			}
-			time.Sleep(25 * time.Millisecond)
-			seen = map[int]byte{}
-		}
 		switch ev.kind {
 		case 't':
 			bodies = append(bodies, memcluster.TopologyEventBody([]string{"NEW_NODE", "REMOVED_NODE", "MOVED_NODE"}[nt%3], evIP(77), 9042))
 			nt++
-			continue
 		case 'u':
 			bodies = append(bodies, memcluster.StatusEventBody("UP", evIP(ev.addr), 9042))
 		case 'd':
@@ -223,9 +205,11 @@ func (e *evWorld) pushBatch(b []evEvent) bool {
 		default:
 			bodies = append(bodies, memcluster.StatusEventBody("JOINING", evIP(ev.addr), 9042))
 		}
-		seen[ev.addr] = ev.kind
 	}
-	return flush()
+	if len(bodies) == 0 {
+		return true
+	}
+	return e.cp.PushEvents(bodies...)
 }
 
 func (e *evWorld) setRows(rows []evRow) {
@@ -233,10 +217,7 @@ func (e *evWorld) setRows(rows []evRow) {
 }
 
 func (e *evWorld) noteRefresh(rows []evRow) {
-	e.prevIDs = map[int]bool{}
-	for k := range e.snap().RingByID {
-		e.prevIDs[evIDNum(k)] = true
-	}
+	e.notePrev()
 	e.lastRows = rows
 }
 
@@ -259,6 +240,7 @@ func e2eExec(w *world, f []string) (res string) {
 			return "bad-op"
 		}
 		e := &evWorld{policy: pol, objs: map[int]*gocql.HostInfo{}, tracked: map[*gocql.HostInfo]bool{}, prevIDs: map[int]bool{},
+			prevObjs: map[*gocql.HostInfo]bool{}, tokenAw: strings.HasPrefix(f[2], "ta"),
 			statusOff: strings.Contains(f[3], "S"), topoOff: strings.Contains(f[3], "T"), exp: map[int]e2eExp{}}
 		var ips []string
 		for a := 2; a <= 60; a++ {
@@ -366,7 +348,7 @@ func e2eExec(w *world, f []string) (res string) {
 		return "refreshed=1 " + e2eSnapString(sn)
 	case "e2eorder":
 		// n STATUS_CHANGE frames for n different (unknown) addresses, written back to back: do they reach the
-		// debouncer's buffer in wire order? (each frame is handed over by its own goroutine)
+		// debouncer's buffer in wire order? (before the repair of KF-C16-2 each frame was handed over by its own goroutine)
 		n := atoi(f[1])
 		var bodies [][]byte
 		var want []string
@@ -583,12 +565,34 @@ func (g *evGen) e2e(idx int) {
 					b = append(b, evEvent{'d', gone.addr})
 				}
 				cls += "/removed-node"
-			case y < 65 && len(peers) > 0:
+			case y < 57 && len(peers) > 0:
 				i := r.Intn(len(peers))
 				peers[i].addr, peers[i].rpc = nextAddr, nextAddr
 				nextAddr++
 				b = append(b, evEvent{'t', 0})
 				cls += "/moved-node"
+			case y < 61 && len(peers) > 1:
+				i := r.Intn(len(peers))
+				j := (i + 1 + r.Intn(len(peers)-1)) % len(peers)
+				peers[i].addr, peers[j].addr = peers[j].addr, peers[i].addr
+				peers[i].rpc, peers[j].rpc = peers[j].rpc, peers[i].rpc
+				b = append(b, evEvent{'t', 0})
+				cls += "/swapped-addresses"
+			case y < 65 && len(peers) > 0:
+				i := r.Intn(len(peers))
+				if r.Bool() { // a dead node replaced by a new host id on the same address
+					peers[i].id = nextID
+					nextID++
+					cls += "/replaced-node"
+				} else { // a node moves away and a new node appears on the address it left
+					m := newMember()
+					m.addr, m.rpc = peers[i].addr, peers[i].rpc
+					peers[i].addr, peers[i].rpc = nextAddr, nextAddr
+					nextAddr++
+					peers = append([]member{m}, peers...)
+					cls += "/moved-node+new-node-on-the-vacated-address"
+				}
+				b = append(b, evEvent{'t', 0})
 			case y < 80 && len(peers) > 0:
 				i := r.Intn(len(peers))
 				peers[i].defect = []string{"norack", "nodc", "notok", "norpc"}[r.Intn(4)]
@@ -639,5 +643,10 @@ func (g *evGen) e2e(idx int) {
 		if len(g.w.ev.tracked) > 0 {
 			g.emit("evnotoffered", "evnotoffered/spec-backed", true)
 		}
+	}
+	if !g.dead && !strings.Contains(flags, "S") { // (with status events disabled the driver does not REGISTER for them)
+		// last op of the scenario (the UPs of unknown addresses request a refresh afterwards): 200 STATUS_CHANGE frames
+		// in one write reach the node-event debouncer's buffer in wire order (C16_wire_order_last_wins)
+		g.emit("e2eorder 200", "e2eorder/spec-backed", true)
 	}
 }
